@@ -228,7 +228,7 @@ func (w *World) Check(ctx sdk.Context, l *Ledger, fail func(a, s, d string)) {
 
 	// accumulation totals at the alphabet's own durations and at 0, on the live branch
 	for _, dn := range Denoms {
-		for _, d := range append([]time.Duration{0}, Durations...) {
+		for _, d := range append([]time.Duration{0}, latticeDurs(l)...) {
 			dn, d := dn, d
 			c.coins("LockedDenom", dn+","+d.String()+",live", func() (sdk.Coins, error) {
 				r, err := w.Q.LockedDenom(q, &lockuptypes.LockedDenomRequest{Denom: dn, Duration: d})
@@ -247,7 +247,7 @@ func (w *World) Check(ctx sdk.Context, l *Ledger, fail func(a, s, d string)) {
 	// ---- duration lattice ----------------------------------------------------------------------
 	// every duration of the alphabet and its two neighbours, 0, 1 ns, and the largest duration
 	dset := map[time.Duration]struct{}{0: {}, 1: {}, time.Duration(math.MaxInt64): {}}
-	for _, d := range Durations {
+	for _, d := range latticeDurs(l) {
 		dset[d-1], dset[d], dset[d+1] = struct{}{}, struct{}{}, struct{}{}
 	}
 	var ds []time.Duration
@@ -258,6 +258,16 @@ func (w *World) Check(ctx sdk.Context, l *Ledger, fail func(a, s, d string)) {
 	shared := map[string]int{}
 	for _, x := range l.Locks {
 		shared[x.Denom+"|"+x.Dur.String()]++
+	}
+	perDenom := map[string]int{}
+	for k := range shared {
+		perDenom[strings.SplitN(k, "|", 2)[0]]++
+	}
+	for _, n := range perDenom {
+		if n > 10 {
+			w.Vac["states_with_more_than_10_duration_keys_of_one_denom"]++
+			break
+		}
 	}
 	for _, n := range shared {
 		if n >= 2 {
@@ -344,7 +354,7 @@ func (w *World) Check(ctx sdk.Context, l *Ledger, fail func(a, s, d string)) {
 		}
 	}
 	addT(now)
-	for _, d := range Durations {
+	for _, d := range latticeDurs(l) {
 		addT(now.Add(d))
 	}
 	unswept := false
